@@ -55,9 +55,10 @@ CHECKS = {
              "A_j ff_full j i for the area-ratio rule (field); the Stokes double Boole sum is symmetric in the two "
              "patches and A_i stokes(i->j) = A_j stokes(j->i); stokes >= 0; Boole's rule is exact for polynomials of "
              "degree <= 5; cut-off inactive => stokes = stokes_nocut; translation invariance. NOT carried: F <= 1, the "
-             "2.5% closure, everything on the Nusselt branch, invariance under general isometries/scaling (measured by the search; the 1e-3 m segment cut-off that broke it "
-             "was repaired by fix cfd1b2b).",
-        note=TRUST + "ln/sqrt/abs abstract; Nusselt-branch values enter the model as data; accuracy is C06 (not claimed).",
+             "2.5% closure, accuracy / bounds / rotation invariance of the Nusselt branch (the branch is modelled; translation and scaling invariance are proved; the 1e-3 m segment cut-off that broke similarity "
+             "was repaired by fix cfd1b2b). The composed end-to-end model computes its whole form-factor matrix itself "
+             "(C05_room_form_factors_computed).",
+        note=TRUST + "ln/sqrt/abs abstract; np.linalg.inv of the Nusselt branch is modelled by the Lagrange closed form; accuracy is C06 (not claimed).",
         technique="Coq proof over ordered field + extracted-model correspondence", ref="5/C05"),
     "C09": dict(
         text="Proof: Green-function argument in any commutative ring: first-leg recursion = last-leg recursion, hence the "
@@ -98,9 +99,12 @@ CHECKS = {
              "for shoebox rooms, and for triangles on axis planes in general position; for any polygon on an axis "
              "plane in general position it is reduced to a tolerance-free crossing number; for general polygons it is NOT proved and is refuted as a universal statement by a Qc "
              "witness (ray through a pointed vertex: known finding C07/ray_through_vertex). Correspondence against an "
-             "exact rational segment/polygon oracle.",
+             "exact rational segment/polygon oracle. For the composed end-to-end model: the patch surfaces of a room "
+             "with axis-aligned rectangular walls are axis-aligned rectangles (derived from the tiling theorems), and "
+             "for centroids in general position two patches exchange energy iff no patch rectangle blocks the segment "
+             "between their centroids (C07_room_visibility_geometric).",
         note=TRUST + "Winding-number correctness for non-rectangular or rotated surfaces is validated by differential "
-             "testing only.",
+             "testing only. General position of the centroids of a given room is a hypothesis of the room theorem.",
         technique="Coq proof over ordered field + extracted-model correspondence + exact-rational oracle", ref="5/C07"),
     "C19": dict(
         text="Proof: the Kang list model's order-(k+1) histogram is the stated sum over the patches of all other walls "
